@@ -6,7 +6,9 @@
  * Script (see checks/c14.py / gen/memattrs_gen.py for the full grammar):
  *   case <name> / synth <desc> / pre_restrict <set> <flags> / misc <gp> <name> /
  *   mem <numaidx> <bytes> / subtype <numaidx> <word> / info <numaidx> <name> <value> / osindex <gp> <os> /
- *   env HWLOC_MEMTIERS...=<value> (before synth) / show / start / <ops> / end
+ *   env HWLOC_MEMTIERS...=<value> (before synth) / include_disallowed (before synth) /
+ *   xmlfile <path> (instead of synth; "@REPO@" = $HWV_REPO) / show / start / <ops> / end
+ *   extra op: allow <cpuset|-> <nodeset|-> <flags>  (hwloc_topology_allow)
  *   extra op: xmlt [HWLOC_MEMTIERS...=<value>]...  (XML round trip with these variables set during the reload);
  *   "M tiers nr=.." / "M node <gp> tier=.." lines report MemoryTiersNr / MemoryTier after start and after xmlt
  * Harness-only extras: "show" (header: print the T table) and "sync" (print "S",
@@ -27,6 +29,7 @@
 
 static hwloc_topology_t topo;
 static int started;
+static int incl_disallowed;   /* header line include_disallowed: HWLOC_TOPOLOGY_FLAG_INCLUDE_DISALLOWED on every load of this case */
 static char casename[256];
 
 static struct hwloc_obj sentinel_obj;
@@ -402,6 +405,7 @@ static void op_xml_named(const char *name)
   rc = hwloc_topology_init(&nt);
   if (rc == 0) {
     rc = hwloc_topology_set_type_filter(nt, HWLOC_OBJ_MISC, HWLOC_TYPE_FILTER_KEEP_ALL);
+    if (rc == 0) rc = hwloc_topology_set_flags(nt, hwloc_topology_get_flags(topo));
     if (rc == 0) rc = hwloc_topology_set_xmlbuffer(nt, buf, len);
     if (rc == 0) rc = hwloc_topology_load(nt);
     e = errno;
@@ -525,6 +529,17 @@ static void do_op(char *line)
     op_xml();
   } else if (!strcmp(op, "xmlt")) {
     op_xmlt(t, nt);
+  } else if (!strcmp(op, "allow")) {
+    /* allow <cpuset|-> <nodeset|-> <flags>: hwloc_topology_allow() */
+    hwloc_bitmap_t c = NULL, n = NULL; unsigned long flags; int rc, e;
+    if (nt != 4 || parse_ul(t[3], &flags) < 0 || (strcmp(t[1], "-") && !(c = parse_set(t[1]))) || (strcmp(t[2], "-") && !(n = parse_set(t[2])))) {
+      if (c) hwloc_bitmap_free(c);
+      res_bad(op); return;
+    }
+    errno = 0; rc = hwloc_topology_allow(topo, c, n, flags); e = errno;
+    if (rc < 0) res_fail(op, e); else OUT("R allow rc=0 err=OK\n");
+    if (c) hwloc_bitmap_free(c);
+    if (n) hwloc_bitmap_free(n);
   } else {
     res_bad(op);
   }
@@ -538,7 +553,26 @@ static void header_line(char *line)
     rc = hwloc_topology_init(&topo);
     if (rc == 0) {
       rc = hwloc_topology_set_type_filter(topo, HWLOC_OBJ_MISC, HWLOC_TYPE_FILTER_KEEP_ALL);
+      if (rc == 0 && incl_disallowed) rc = hwloc_topology_set_flags(topo, HWLOC_TOPOLOGY_FLAG_INCLUDE_DISALLOWED);
       if (rc == 0) rc = hwloc_topology_set_synthetic(topo, line + 6);
+      if (rc == 0) rc = hwloc_topology_load(topo);
+      if (rc < 0) { hwloc_topology_destroy(topo); topo = NULL; }
+    } else topo = NULL;
+    OUT("P synth rc=%d\n", rc < 0 ? -1 : 0);
+  } else if (!strcmp(line, "include_disallowed")) {
+    incl_disallowed = 1;
+    OUT("P include_disallowed rc=0\n");
+  } else if (!strncmp(line, "xmlfile ", 8)) {
+    /* an XML file of the source tree instead of a synthetic description; "@REPO@" = $HWV_REPO */
+    char path[1024]; const char *arg = line + 8, *repo = getenv("HWV_REPO"); int rc;
+    if (!strncmp(arg, "@REPO@", 6) && repo) snprintf(path, sizeof path, "%s%s", repo, arg + 6);
+    else snprintf(path, sizeof path, "%s", arg);
+    if (topo) { hwloc_topology_destroy(topo); topo = NULL; }
+    rc = hwloc_topology_init(&topo);
+    if (rc == 0) {
+      rc = hwloc_topology_set_type_filter(topo, HWLOC_OBJ_MISC, HWLOC_TYPE_FILTER_KEEP_ALL);
+      if (rc == 0 && incl_disallowed) rc = hwloc_topology_set_flags(topo, HWLOC_TOPOLOGY_FLAG_INCLUDE_DISALLOWED);
+      if (rc == 0) rc = hwloc_topology_set_xml(topo, path);
       if (rc == 0) rc = hwloc_topology_load(topo);
       if (rc < 0) { hwloc_topology_destroy(topo); topo = NULL; }
     } else topo = NULL;
@@ -609,6 +643,7 @@ int main(void)
     if (!strncmp(line, "case ", 5)) {
       if (topo) { hwloc_topology_destroy(topo); topo = NULL; }
       pop_env(0);
+      incl_disallowed = 0;
       snprintf(casename, sizeof casename, "%s", line + 5);
       incase = 1; started = 0;
       OUT("P case %s\n", casename);
